@@ -229,18 +229,17 @@ def run(prog, tier, extra=None):
         if not cmpv["sites"]:
             res.add(Finding(R4, "C06.verify-block|no-%s-comparison" % field, "verify_block does not compare the decoded block %s with the advertised one" % field, vb.loc(0)))
             continue
+        # must-pass: no send is reachable from the entry without taking an edge on which the two are equal (the comparison may be
+        # switched on directly, kept in a `let matches = a == x && b == y;` flag, or made in a helper)
         ex = Explorer(vb)
-        bad = False
-        for (src, tgt) in cmpv["ne"]:
-            found = ex.explore(tgt, accept=send)
-            if found:
-                bad = True
-                kind, path = sorted(found.items())[0]
-                res.add(Finding(R4, "C06.verify-block|%s-mismatch-forwarded" % field,
-                                "verify_block still sends the block to the consensus thread when its %s differs from the advertised one" % field,
-                                vb.loc(src), {"path": describe_path(vb, [src] + path)}))
-        if not bad:
-            res.sample({"rule": R4, "field": field, "comparison": [vb.loc(x) for x in cmpv["sites"]], "verdict": "mismatch edge reaches no send"})
+        found = ex.explore(0, deleted_edges=cmpv["eq"], accept=send)
+        if found:
+            kind, path = sorted(found.items())[0]
+            res.add(Finding(R4, "C06.verify-block|%s-mismatch-forwarded" % field,
+                            "verify_block still sends the block to the consensus thread when its %s differs from the advertised one" % field,
+                            vb.loc(cmpv["sites"][0]), {"path": describe_path(vb, path)}))
+        else:
+            res.sample({"rule": R4, "field": field, "comparison": [vb.loc(x) for x in cmpv["sites"]], "verdict": "no send without the equal edge"})
 
     res.explanation = (
         "Decides the structural part of the binding: on every path of Block::validate that can return true (outside the SPV-mode and ghost-block exits) "
